@@ -12,6 +12,8 @@
 // verif:assume C06: one on-demand candidate with one pod of symbolic cpu, one other initialized node of symbolic allocatable, 3 instance types with symbolic on-demand prices (spot unavailable); between decision and validation one of: nothing, a new pending pod (symbolic cpu), a new pod bound to the candidate (symbolic cpu, optionally do-not-disrupt), the candidate nominated for a pod; validation period 0 (the wait itself is a timer)
 // verif:pure ^sigs\.k8s\.io/karpenter/pkg/utils/resources\.(Fits|Cmp)$
 // verif:pure ^\(\*sigs\.k8s\.io/karpenter/pkg/scheduling\.Requirement\)\.(Has|Len|Operator)$
+// verif:nondeterministic the scheduler breaks ties between equally good domains, NodeClaims and instance types by Go map iteration order; a native run may take another admissible behaviour than the symbolic path
+// verif:assume sample comparison against the real build is restricted to the verdict for these harnesses: the real code breaks ties by randomised map iteration order, the engine iterates in insertion order; violations are always confirmed natively
 
 package disruption
 
